@@ -121,7 +121,7 @@ def h_pipeline(max_stages=2, local=False, fails=True):
         try:
             _run(ex, w)
         except Hang as e:
-            ex.check(False, "C15: a JADE process did not terminate", what=str(e)[:200])
+            ex.check(False, "C15: a JADE process did not terminate", what=str(e)[:200], fatal=True)
         finally:
             w.close()
 
